@@ -1,3 +1,183 @@
 import B6.Driver.Common
-/-! Driver for C16 — stub (the check for this property is not built yet). -/
-def main : IO Unit := B6.Driver.run { σ := Unit, init := (), step := fun s _ _ => (s, .bad) }
+import B6.Driver.SkelIO
+import B6.Model.OverlayWorld
+/-!
+Driver for C16 — layered worlds.
+
+feature  `<id>=<refs>;v=<version>[;t=<word>][;loc=<slot>|;noloc]`     (refs comma separated)
+item     `<id>:<version>`
+
+ops
+  `merge base=[item…] ov=[item…] filter=[id…]`   the bare iterator `newOverlayFeatures` (verif hook)
+       answer `[item…]` in iteration order | `panic`
+  `overlay base=[feature…] ov=[feature…]`        `NewOverlayWorld(ov, base)` over two built basic worlds
+  `mutable base=[feature…] adds=[feature…]`      `NewMutableOverlayWorld(base)` + `AddFeature` per feature
+       answer `base=[feature…] ov=[feature…]`: the layers as built (`ov` = `EachModifiedFeature` for
+       the mutable world); the driver resynchronises on them
+  `get <id>` → version | `none`;  `has <id>` → `true|false`;  `loc <id>` → slot | `err`
+  `each` → `[item…]` sorted by ID (with multiplicity)
+  `search <q> base=[item…] ov=[item…]` → `[item…]` in iteration order; `base`/`ov` are what the two
+       layers answer on their own (`ov=-` for the mutable world: the driver derives it from the layer)
+       q = `all` | `t=<word>`
+  `refs <id> [type…]` | `rels <id>` | `cols <id>` | `areas <id>` → `[item…]` sorted by ID
+
+Property predicate: every answer = the answer computed on the shadowed feature set (overlay ∪ base
+without the IDs the overlay holds), the feature always taken from the upper layer; enumeration and
+search yield each ID once, search in ID order.
+-/
+open B6.Driver B6.Driver.SkelIO B6.Model.OverlayWorld
+namespace B6.Driver.C16
+abbrev Id := B6.Model.OverlayWorld.Id
+
+abbrev Item := Id × String
+
+def parseItem (s : String) : Option Item :=
+  match s.splitOn ":" with
+  | [a, v] => do let id ← parseId a; some (id, v)
+  | _ => none
+
+def renderItem (x : Item) : String := renderId x.1 ++ ":" ++ x.2
+
+def parseItems (s : String) : Option (List Item) := do
+  let ws ← parseBracket s
+  ws.mapM parseItem
+
+def renderItems (xs : List Item) : String := renderList (xs.map renderItem)
+
+def parseFeat (s : String) : Option Feat :=
+  match s.splitOn ";" with
+  | [] => none
+  | head :: attrs =>
+    match head.splitOn "=" with
+    | [a, b] => do
+      let id ← parseId a
+      let refs ← parseIdsComma b
+      let ver := (attrs.filterMap fun a => if a.startsWith "v=" then some (sdrop a 2) else none).head?
+      let loc := (attrs.filterMap fun a => if a.startsWith "loc=" then parseNat? (sdrop a 4) else none).head?
+      some { id := id, ver := ver.getD "-", refs := refs, loc := loc }
+    | _ => none
+
+def tagOf (s : String) : Option String :=
+  ((s.splitOn ";").filterMap fun a => if a.startsWith "t=" then some (sdrop a 2) else none).head?
+
+/-- `key=[…]` segments of an op / answer line: the text between `key=[` and the next `]` -/
+def segment (line key : String) : Option String :=
+  match line.splitOn (key ++ "=[") with
+  | [_, rest] => match rest.splitOn "]" with
+    | inner :: _ => some ("[" ++ inner ++ "]")
+    | [] => none
+  | _ => none
+
+structure St where
+  kind : String := ""
+  w : OW := ⟨[], []⟩
+  /-- search tag of every overlay feature (mutable kind: to derive the overlay's own search answer) -/
+  ovTags : List (Id × String) := []
+
+def itemsOf (fs : List Feat) : List Item := fs.map fun f => (f.id, f.ver)
+
+def sortItems (xs : List Item) : List Item := sortBy (fun (a b : Item) => SkelIO.idLt a.1 b.1) xs
+
+def judgeS (impl model spec clause : String) : Verdict :=
+  if impl == spec then (if impl == model then .ok else .diff model) else .propfail clause
+
+def strictlySorted : List Item → Bool
+  | [] => true
+  | [_] => true
+  | a :: b :: rest => B6.Model.OverlayWorld.idLt a.1 b.1 && strictlySorted (b :: rest)
+
+def renderMerge : Option (List (Id × String × Bool)) → String
+  | some xs => renderItems (xs.map fun x => (x.1, x.2.1))
+  | none => "panic"
+
+def queryTypes (kind : String) (extra : List String) : Option (List Nat) :=
+  if kind == "refs" then parseTypes extra
+  else if extra != [] then none
+  else if kind == "rels" then some [3] else if kind == "cols" then some [5] else if kind == "areas" then some [2]
+  else none
+
+def step (st : St) (op impl : String) : St × Verdict :=
+  match words op with
+  | "merge" :: _ =>
+    match (segment op "base").bind parseItems, (segment op "ov").bind parseItems, (segment op "filter").bind parseIds with
+    | some base, some ov, some filt =>
+      let f : Id → Bool := fun i => filt.contains i
+      let m := renderMerge (mergeIter f base ov)
+      -- the property speaks about sorted duplicate-free inputs whose overlay IDs are all in the filter
+      if strictlySorted base && strictlySorted ov && ov.all (fun x => f x.1) then
+        let s := renderMerge (some (merge ov (base.filter fun x => !f x.1)))
+        (st, judgeS impl m s "overlay_merge")
+      else (st, if impl == m then .ok else .diff m)
+    | _, _, _ => (st, .bad)
+  | k :: _ =>
+    if k == "overlay" || k == "mutable" then
+      match (segment impl "base").bind (fun s => (parseBracket s).bind (·.mapM parseFeat)),
+            (segment impl "ov").bind (fun s => (parseBracket s).bind (·.mapM parseFeat)),
+            (segment impl "ov").bind parseBracket with
+      | some b, some o, some otoks =>
+        let tags := (otoks.zip o).filterMap fun (tok, f) => (tagOf tok).map fun t => (f.id, t)
+        ({ kind := k, w := ⟨o, b⟩, ovTags := tags }, .ok)
+      | _, _, _ => (st, .bad)
+    else
+    match words op with
+    | ["get", ids] =>
+      match parseId ids with
+      | none => (st, .bad)
+      | some id =>
+        let m := match st.w.get id with | some f => f.ver | none => "none"
+        (st, judgeS impl m m "lookup_shadow")
+    | ["has", ids] =>
+      match parseId ids with
+      | none => (st, .bad)
+      | some id => let m := toString (st.w.has id); (st, judgeS impl m m "has")
+    | ["loc", ids] =>
+      match parseId ids with
+      | none => (st, .bad)
+      | some id =>
+        let m := match st.w.loc id with | some k => toString k | none => "err"
+        (st, judgeS impl m m "location_shadow")
+    | ["each"] =>
+      let m := renderItems (sortItems (itemsOf st.w.each))
+      (st, judgeS impl m m "each_once")
+    | "search" :: q :: _ =>
+      match (segment op "base").bind parseItems with
+      | none => (st, .bad)
+      | some baseRes =>
+        let ovRes : Option (List Item) :=
+          if st.kind == "mutable" then
+            -- the overlay's own answer: its features carrying the tag, in ID order
+            if q.startsWith "t=" then
+              let t := sdrop q 2
+              some (sortItems ((st.w.overlay.filter fun f => st.ovTags.contains (f.id, t)).map fun f => (f.id, f.ver)))
+            else none
+          else (segment op "ov").bind parseItems
+        match ovRes with
+        | none => (st, .bad)
+        | some ovRes =>
+          let f : Id → Bool := fun i => st.w.overlay.has i
+          let m := renderMerge (mergeIter f baseRes ovRes)
+          let s := renderMerge (some (merge ovRes (baseRes.filter fun x => !f x.1)))
+          (st, judgeS impl m s "overlay_merge")
+    | q :: ids :: extra =>
+      match parseId ids, queryTypes q extra with
+      | some id, some typed =>
+        let render := fun (r : Option (List Feat)) => match r with
+          | some fs => renderItems (sortItems (itemsOf fs))
+          | none => "hang"
+        match st.w.specRefs id typed with
+        | none => (st, .bad)
+        | some s =>
+          let m := render (st.w.findRefs id typed)
+          let sp := render (some s)
+          if impl == sp then (st, if impl == m then .ok else .diff m)
+          else if !st.w.independent then (st, .propfail "union_refs class=layer_crossing")
+          else (st, .propfail "union_refs")
+      | _, _ => (st, .bad)
+    | _ => (st, .bad)
+  | _ => (st, .bad)
+
+def family : Family := { σ := St, init := {}, step := step }
+
+end B6.Driver.C16
+
+def main : IO Unit := B6.Driver.run B6.Driver.C16.family
